@@ -930,6 +930,15 @@ func (env *CEnv) call(x *CExpr) CV {
 			var out *Term
 			env.withState(env.st, func() { out = env.e.strJoin(sl, sep) })
 			return CV{V: out, T: types.Typ[types.String]}
+		case "sidstr":
+			// sidstr(x): the model of mstypes.RPCSID.String on the SID value x
+			st := env.asTerm(env.eval(x.Args[0]))
+			var out *Term
+			env.withState(env.st, func() { out = env.e.sidString(st) })
+			if out == nil {
+				cfail("sidstr: mstypes.RPCSID is not in the program")
+			}
+			return CV{V: out, T: types.Typ[types.String]}
 		case "mk":
 			// mk("pkg.T", f1, f2, ...): a struct value from its field values in declaration order
 			s, _ := strconv.Unquote(x.Args[0].Name)
